@@ -1,6 +1,6 @@
 (* Properties_C05.v — C05: indels are reported in reference coordinates whatever the alignment's columns. *)
 From Coq Require Import List Arith Lia Bool.
-From GF Require Import Indels.
+From GF Require Import Indels IndelsSpec.
 Import ListNotations.
 
 (* The scan of the code (alignment positions, the MSAToRef offset table which is 0 at reference-gap
@@ -19,6 +19,33 @@ Theorem C05_invariant_under_double_gap_columns : forall pre post,
   get_indels (pre ++ (true, true) :: post) = get_indels (pre ++ post).
 Proof. exact indels_invariant_under_double_gap_columns. Qed.
 Print Assumptions C05_invariant_under_double_gap_columns.
+
+(* ---- what the records MEAN, stated on the columns of the pairwise relation alone (no machine) ---- *)
+(* `ins:P:L` is listed iff L >= 1 and exactly L columns with a reference gap and a query base have exactly P reference
+   bases to their left (so the L bases sit immediately after reference base P; columns that are gaps in both rows,
+   between or around them, do not count and do not split the run) *)
+Theorem C05_ins_iff : forall cs P L, In (Ins P L) (get_indels cs) <-> 0 < L /\ L = inslen cs P.
+Proof. exact ins_iff. Qed.
+Print Assumptions C05_ins_iff.
+
+(* `del:P:L` is listed iff reference bases P..P+L-1 are absent from the query, and bases P-1 and P+L both exist and are
+   present: the run is maximal, and runs containing the first or the last reference base are not listed *)
+Theorem C05_del_iff : forall cs P L,
+  In (Del P L) (get_indels cs) <->
+  1 < P /\ 0 < L /\ P + L <= refcols cs /\ (forall k, P <= k < P + L -> deleted cs k = true) /\
+  deleted cs (P - 1) = false /\ deleted cs (P + L) = false.
+Proof. exact del_iff. Qed.
+Print Assumptions C05_del_iff.
+
+(* one record per maximal run: nothing is listed twice, and a position carries at most one insertion and one deletion *)
+Theorem C05_one_record_per_run : forall cs, NoDup (get_indels cs).
+Proof. exact indels_nodup. Qed.
+Print Assumptions C05_one_record_per_run.
+Theorem C05_lengths_unique : forall cs P L L',
+  (In (Ins P L) (get_indels cs) -> In (Ins P L') (get_indels cs) -> L = L') /\
+  (In (Del P L) (get_indels cs) -> In (Del P L') (get_indels cs) -> L = L').
+Proof. exact lengths_unique. Qed.
+Print Assumptions C05_lengths_unique.
 
 Example C05_example :
   get_indels [(false,false);(false,false);(false,false);(true,false);(true,false);(true,false);
